@@ -260,7 +260,7 @@ def topoBase (ds : DS) (numbering : Option (List Pair)) (q : Quirks := {}) : Exc
 
 /-- `has_valid_face_edge_connectivity`: the dimensions, then — if the variable carries an
 encoded `_FillValue` — that the fill value lies outside `[start_index, edge_count + start_index]`
-(reading `start_index` or counting the edges may raise) -/
+(reading `start_index` or counting the edges may raise); skipped when the mesh has no edge dimension -/
 def faceEdgeValid (ds : DS) (base : TopoIn) : Except Err Bool :=
   match ds.validFaceVar? "face_edge_connectivity" with
   | none => .ok false
@@ -268,6 +268,8 @@ def faceEdgeValid (ds : DS) (base : TopoIn) : Except Err Bool :=
     match v.encFill with
     | none => .ok true
     | some fill =>
+      -- (without an edge dimension there is no edge count to check the fill value against: the check is skipped)
+      if !base.hasEdgeDim then .ok true else
       match lowerBound v, base.edgeCount with
       | .error e, _ => .error e
       | _, .error e => .error e
